@@ -13,11 +13,13 @@ Check c10_ascii_passthrough_bytes : forall enc s, forallb is_ascii s = true -> t
 Check c10_ascii_passthrough_string : forall dec,
   (forall l bs, forallb is_ascii bs = true -> dec l bs = bs) ->
   forall bs, forallb is_ascii bs = true -> no_marker bs = true -> to_lossy_string dec bs = bs.
-Check c10_unrepresentable_is_qmark : forall enc cur a c b, unrepresentable enc c ->
-  enc_from enc cur (a ++ c :: b) = enc_from enc cur a ++ qmark :: enc_from enc (state_after enc cur a) b /\
-  enc_from enc cur (a ++ b) = enc_from enc cur a ++ enc_from enc (state_after enc cur a) b.
+Check c10_unrepresentable_is_qmark : forall enc cur after a c b, unrepresentable enc c ->
+  enc_from enc cur after (a ++ c :: b) =
+    enc_from enc cur after a ++ qmark :: enc_from enc (fst (state_after enc cur after a)) false b /\
+  (snd (state_after enc cur after a) = false ->
+   enc_from enc cur after (a ++ b) = enc_from enc cur after a ++ enc_from enc (fst (state_after enc cur after a)) false b).
 Check c10_table_assignment : assignment_ok = true.
-Check c10_fast_path_unobservable : forall enc s, to_lossy_bytes enc s = enc_from enc gen_default_codepage s.
+Check c10_fast_path_unobservable : forall enc s, to_lossy_bytes enc s = enc_from enc gen_default_codepage false s.
 Print Assumptions c10_roundtrip.
 Print Assumptions c10_safe_outside_known_class.
 Print Assumptions c10_ascii_passthrough_bytes.
